@@ -348,7 +348,7 @@ def check(prop, tier, seed):
 def _safe_name(tid):
     """file name for a replay record: no blanks or shell metacharacters (the VIOLATION line is `... replay=<path>` and must stay one token)"""
     import re
-    return re.sub(r"[^A-Za-z0-9_.\[\],+-]", "_", tid)[:120]
+    return re.sub(r"[^A-Za-z0-9_.+-]", "_", tid)[:120]
 
 
 def run_tasks_only(tids, out_path):
